@@ -345,3 +345,71 @@ Theorem swap_edge_exactly_when a b s : a <> b ->
 Proof.
   intros N. split; intros M; [apply swap_edge_faces_relabeled_iff|apply swap_edge_out_hes_relabeled_iff]; assumption.
 Qed.
+
+(* ---------------------------------------------------------------- the exactness invariant of C01 survives the relabeling *)
+Lemma opp_swap_half a b y : opp (swap_half a b y) = swap_half a b (opp y).
+Proof.
+  destruct (swap_half_spec a b y) as [P1 P2]. destruct (swap_half_spec a b (opp y)) as [Q1 Q2].
+  rewrite opp_div2 in Q1. rewrite opp_mod2 in Q2. rewrite opp_spec, P1, P2.
+  pose proof (Nat.div_mod_eq (swap_half a b (opp y)) 2) as D. rewrite Q1, Q2 in D. lia.
+Qed.
+
+Lemma halfface_edge_relabeled a b s x : halfface (edge_relabeled a b s) x = map (swap_half a b) (halfface s x).
+Proof.
+  unfold halfface. rewrite face_at_edge_relabeled. destruct (Nat.even x); [reflexivity|].
+  rewrite map_rev, !map_map. f_equal. apply map_ext. intros y. apply opp_swap_half.
+Qed.
+
+Lemma e_deleted_edge_relabeled a b s e : a < length (edel s) -> b < length (edel s) ->
+  e_deleted (edge_relabeled a b s) e = e_deleted s (swap_idx a b e).
+Proof.
+  intros Ha Hb. unfold e_deleted, edge_relabeled. rse. rewrite nth_swap_nth by assumption. unfold swap_idx.
+  destruct (Nat.eqb_spec e a); [reflexivity|]. destruct (Nat.eqb_spec e b); reflexivity.
+Qed.
+
+Lemma he_from_edge_relabeled a b s h : a < ne s -> b < ne s -> he_from (edge_relabeled a b s) h = he_from s (swap_half a b h).
+Proof.
+  intros Ha Hb. unfold he_from. rewrite edge_at_edge_relabeled by assumption. rewrite swap_half_even.
+  destruct (swap_half_spec a b h) as [Q _]. rewrite Q. reflexivity.
+Qed.
+
+Theorem bu_inv_edge_relabeled a b s : a <> b -> a < ne s -> b < ne s -> bu_inv s -> bu_inv (edge_relabeled a b s).
+Proof.
+  intros N Ha Hb (VO & EO & FO & (R1 & R2 & R3) & (L1 & L2 & L3 & L4 & L5 & L6)).
+  assert (NE : ne (edge_relabeled a b s) = ne s) by (unfold ne, edge_relabeled; rse; apply swap_nth_length).
+  assert (NF : nf (edge_relabeled a b s) = nf s) by (unfold nf, edge_relabeled; rse; apply map_length).
+  split; [|split; [|split; [|split; [split; [|split]|]]]].
+  - (* vbu_ok *)
+    intros V v Hv h. change (vbu s = true) in V. change (v < nv s) in Hv.
+    rewrite out_at_edge_relabeled by exact V. rewrite In_map_swap_half, (VO V v Hv (swap_half a b h)), NE.
+    rewrite e_deleted_edge_relabeled by lia. rewrite he_from_edge_relabeled by assumption.
+    destruct (swap_half_spec a b h) as [Q _]. rewrite Q. pose proof (swap_idx_lt a b (ne s) (h / 2) Ha Hb). tauto.
+  - (* ebu_ok *)
+    intros E h Hh x. change (ebu s = true) in E. rewrite NE in Hh.
+    rewrite hfs_at_edge_relabeled by (try assumption; exact (L2 E)).
+    rewrite (EO E (swap_half a b h) (proj2 (swap_half_lt a b (ne s) h Ha Hb) Hh) x), NF.
+    rewrite halfface_edge_relabeled, In_map_swap_half. reflexivity.
+  - (* fbu_ok *)
+    intros F hf Hhf c. rewrite NF in Hhf. exact (FO F hf Hhf c).
+  - (* refs_ok, edges *)
+    intros e He D. rewrite NE in He. rewrite e_deleted_edge_relabeled in D by lia. rewrite edge_at_edge_relabeled by assumption.
+    exact (R1 (swap_idx a b e) (proj2 (swap_idx_lt a b (ne s) e Ha Hb) He) D).
+  - (* refs_ok, faces *)
+    intros f Hf D h Hin. rewrite NF in Hf. rewrite face_at_edge_relabeled in Hin. apply In_map_swap_half in Hin.
+    rewrite NE. apply (swap_half_lt a b (ne s) h Ha Hb). exact (R2 f Hf D _ Hin).
+  - (* refs_ok, cells *)
+    intros c Hc D hf Hin. rewrite NF. exact (R3 c Hc D hf Hin).
+  - (* lens_ok *)
+    unfold lens_ok. rewrite NE, NF. unfold edge_relabeled. rse. split; [|split; [|split; [exact L3|split; [|split; [exact L5|exact L6]]]]].
+    + intros V. rewrite V, map_length. exact (L1 V).
+    + intros E. rewrite E, !swap_nth_length. exact (L2 E).
+    + rewrite swap_nth_length. exact L4.
+Qed.
+
+(* so: an edge swap keeps the caches exact, provided no deferred-deleted face lists a halfedge of a or b *)
+Theorem bu_inv_swap_edge a b s : a < ne s -> b < ne s -> bu_inv s -> no_deleted_face_lists s a b -> bu_inv (swap_edge_indices a b s).
+Proof.
+  intros Ha Hb B HD. destruct (Nat.eq_dec a b) as [->|N]; [rewrite swap_edge_self; exact B|].
+  pose proof B as (VO & EO & FO & R & L).
+  rewrite (swap_edge_exact_relabeling a b s N Ha Hb EO VO L HD). apply bu_inv_edge_relabeled; assumption.
+Qed.
